@@ -167,12 +167,12 @@ func TestHistory(t *testing.T) {
 			for i := 0; i < n; i++ {
 				in := pickInst(c, false)
 				insts = append(insts, in)
-				solo = append(solo, soloOutput(c, in))
-				if in.sharedHash != nil {
+				if in.sharedHash != nil { // (taken before the very first call)
 					before = append(before, in.sharedHash())
 				} else {
 					before = append(before, 0)
 				}
+				solo = append(solo, soloOutput(c, in))
 			}
 			// variants: same logical input, different construction history
 			type call struct {
@@ -299,12 +299,12 @@ func interleave(c *core.Ctx, fine bool) {
 			for i := 0; i < ninst; i++ {
 				in := pickInstFor(c, false, false)
 				insts = append(insts, in)
-				solo = append(solo, soloOutput(c, in))
-				if in.sharedHash != nil {
+				if in.sharedHash != nil { // (taken before the very first call)
 					before = append(before, in.sharedHash())
 				} else {
 					before = append(before, 0)
 				}
+				solo = append(solo, soloOutput(c, in))
 			}
 			if c.Chance("earlierFailures", 1, 3) {
 				// history before the tasks start: some of these serializers already failed
@@ -450,12 +450,12 @@ func TestParallelRace(t *testing.T) {
 			for i := 0; i < ninst; i++ {
 				in := pickInstFor(c, false, false)
 				insts = append(insts, in)
-				solo = append(solo, soloOutput(c, in))
-				if in.sharedHash != nil {
+				if in.sharedHash != nil { // (taken before the very first call)
 					before = append(before, in.sharedHash())
 				} else {
 					before = append(before, 0)
 				}
+				solo = append(solo, soloOutput(c, in))
 			}
 			ntasks := c.Int("ntasks", 2, 8)
 			reps := c.Int("reps", 1, 4)
